@@ -67,9 +67,9 @@ impl KZG10 {
     requires
         vk_wf(vk),
     ensures
-        res is Ok,
-        res->Ok_0 ==> commitments@.len() == points@.len() && points@.len() == values@.len() && values@.len() == proofs@.len(),   // name=kzg10.batch_check.accept_implies_equal_lengths props=C05 finding=F5
-        res->Ok_0 == kzg_batch_relation(vk, commitments@, points@, values@, proofs@, old(rng).id@, old(rng).pos@, bc_len(commitments@, points@, values@, proofs@)),   // name=kzg10.batch_check.relation props=C05,C10,C02
+        (res is Ok) == (commitments@.len() == points@.len() && points@.len() == values@.len() && values@.len() == proofs@.len()),   // name=kzg10.batch_check.err_iff_lengths_differ props=C05,C17
+        (res is Ok && res->Ok_0) ==> commitments@.len() == points@.len() && points@.len() == values@.len() && values@.len() == proofs@.len(),   // name=kzg10.batch_check.accept_implies_equal_lengths props=C05 finding=F5
+        res is Ok ==> res->Ok_0 == kzg_batch_relation(vk, commitments@, points@, values@, proofs@, old(rng).id@, old(rng).pos@, bc_len(commitments@, points@, values@, proofs@)),   // name=kzg10.batch_check.relation props=C05,C10,C02
 //@body
 //@rw 1 /u128::rand\(rng\)\.into\(\)/ => Fr::from_u128_rand(rng)
 //@rw 1 /E::multi_pairing\(/ => E::multi_pairing2(
